@@ -443,3 +443,42 @@ theorem scanRel_chain {data : Bytes} {atEOF reset : Bool} {lv : Level} {inner : 
       simp [ChainOK] at hc
       simp [hc] at h1
 end XmppModel.Styling
+
+namespace XmppModel.Styling
+set_option linter.unusedSimpArgs false in
+/-- `ScanRel` determines the result of `scanLv` -/
+theorem scanRel_eq {data : Bytes} {atEOF reset : Bool} {lv : Level} {inner : List Level}
+    {r : Out × Level × List Level} (hr : ScanRel data atEOF reset lv inner r) :
+    scanLv data atEOF reset lv inner = r := by
+  induction hr with
+  | early reset lv00 inner0 h => rw [scanLv]; simp only [h, if_true]
+  | span reset lv00 inner0 h hs =>
+    rw [scanLv]
+    simp only [entryLv, entryInner, entryRs] at hs ⊢
+    simp [h, hs]
+  | pre reset lv00 inner0 h hs hp =>
+    rw [scanLv]
+    simp only [entryLv, entryInner, entryRs] at hs hp ⊢
+    simp [h, hs, hp]
+  | needMore reset lv00 inner0 h hs hp hq =>
+    rw [scanLv]
+    simp only [entryLv, entryInner, entryRs] at hs hp ⊢
+    simp [h, hs, hp, hq]
+  | quoteStart reset lv00 inner0 l h hs hp hq hl hst =>
+    rw [scanLv]
+    simp only [entryLv, entryInner, entryRs] at hs hp hst ⊢
+    simp [h, hs, hp, hq, hst, hl]
+  | nilPanic reset lv00 l h hs hp hq hst hl =>
+    rw [scanLv]
+    simp only [entryLv, entryInner, entryRs] at hs hp hst ⊢
+    simp [h, hs, hp, hq, hst, hl]
+  | delegate reset lv00 q qs l r h hs hp hq hst hr ih =>
+    rw [scanLv]
+    simp only [entryLv, entryInner, entryRs] at hs hp hst ih ⊢
+    simp [h, hs, hp, hq, hst, ih]
+  | block reset lv00 inner0 h hs hp hq hst =>
+    rw [scanLv]
+    simp only [entryLv, entryInner, entryRs] at hs hp hst ⊢
+    simp [h, hs, hp, hq]
+    intro h1 h2; exact absurd (hst h1) h2
+end XmppModel.Styling
